@@ -135,8 +135,10 @@ op("fillna0", "any", lambda x: x.fillna(0) if not _hasstr(x) else x.fillna({"b":
 op("dropna_b", "df", lambda x: x.dropna(subset=["b"]), tier=2)
 op("dropna", "any", lambda x: x.dropna(), tier=2)
 op("drop_c", "df", lambda x: x.drop(columns=["c"]), tier=2)
-op("dropdup_a", "df", lambda x: x.drop_duplicates(subset=["a"]), order="lose", labels="lose", osens=True, tier=2)
-op("dropdup", "any", lambda x: x.drop_duplicates(), order="lose", labels="lose", tier=2)
+# keep="first" keeps the FIRST occurrence in input order (dask-expr picks an order-preserving shuffle for it): which rows survive,
+# and therefore their labels, are defined; only the order of the surviving rows is not
+op("dropdup_a", "df", lambda x: x.drop_duplicates(subset=["a"]), order="lose", osens=True, tier=2)
+op("dropdup", "any", lambda x: x.drop_duplicates(), order="lose", osens=True, tier=2)
 op("isin_a", "df", lambda x: x[x["a"].isin([1, 4, 6])], tier=2)
 # a value container holding LAZY elements (a scalar reduction next to literals): the container is imported into the graph
 op("isin_lazy", "df", lambda x: x[x["a"].isin([x["a"].min(), 4])] if not isinstance(x, pd.DataFrame) else x[x["a"].isin([x["a"].min(), 4])], tier=2)
